@@ -1,4 +1,10 @@
 //verif:dest internal/verifh/memfs/memfs.go
+//verif:replace@C08e os.OpenFile = OpenFile
+//verif:replace@C08e os.Open = Open
+//verif:replace@C08e os.Rename = Rename
+//verif:replace@C08e os.Remove = Remove
+//verif:replace@C08e (*os.File).Read = Read
+//verif:replace@C08e (*os.File).Close = Close
 //verif:replace@C01h os.OpenFile = OpenFile
 //verif:replace@C01h os.Open = Open
 //verif:replace@C01h os.Rename = Rename
